@@ -312,7 +312,14 @@ fn structured(d: Dec, valid: &[u8], rng: &mut impl RngCore) -> Option<(String, V
         Dec::ProverKey => {
             let n = u64::from_le_bytes(v[0..8].try_into().unwrap()) as usize;
             let _ = n;
-            match rng.next_u32() % 6 {
+            match rng.next_u32() % 7 {
+                6 => {
+                    let poly_len = u64::from_le_bytes(valid[16..24].try_into().unwrap()) as usize;
+                    let off = 24 + 32 * poly_len;
+                    let log = 18 + rng.next_u32() % 7;
+                    v[off..off + 172].copy_from_slice(&mutate::canonical_domain_header(log));
+                    Some((format!("canonical-header-of-larger-domain:2^{log}"), v))
+                }
                 0 => {
                     let e = mutate::edit_len(&mut v, 0, false, rng.next_u32() as usize);
                     Some((format!("n{e}"), v))
@@ -355,7 +362,14 @@ fn structured(d: Dec, valid: &[u8], rng: &mut impl RngCore) -> Option<(String, V
                 Some((format!("commitment:{c}"), v))
             }
         }
-        Dec::Evaluations => match rng.next_u32() % 5 {
+        Dec::Evaluations => match rng.next_u32() % 6 {
+            5 => {
+                // a fully canonical header of a much larger domain in front of
+                // the same (now far too short) evaluation data
+                let log = 18 + rng.next_u32() % 7;
+                v[..172].copy_from_slice(&mutate::canonical_domain_header(log));
+                Some((format!("canonical-header-of-larger-domain:2^{log}"), v))
+            }
             0 => {
                 let e = mutate::edit_len(&mut v, 0, false, rng.next_u32() as usize);
                 Some((format!("domain.size{e}"), v))
